@@ -151,32 +151,32 @@ def config(prop, tier, scn, variant):
 
 
 SCENARIOS = dict(
-    C01=dict(quick=['gauss', 'two', 'wrap_net', 'half'],
+    C01=dict(quick=['gauss', 'two', 'wrap_net', 'half', 'g3_pool_s', 'plateau'],
              thorough=['gauss', 'gauss_net', 'two', 'ring_net', 'half', 'plateau', 'wrap',
-                       'wrap_net', 'g3_pool_s', 'two_pool_s', 'b7_update', 'blob_two_obj']),
-    C02=dict(quick=['gauss_d', 'half', 'two', 'b7_update'],
-             thorough=['gauss', 'gauss_d', 'gauss_net', 'two', 'ring_net', 'half', 'plateau',
-                       'wrap_net', 'g3_pool_s', 'b7_update', 'b1', 'blob_f32_inplace']),
+                       'wrap_net', 'g3_pool_s', 'two_pool_s', 'b7_update', 'blob_two_obj', 'b1']),
+    C02=dict(quick=['gauss_d', 'half', 'two', 'gauss_s', 'wrap_net'],
+             thorough=['gauss', 'gauss_s', 'gauss_d', 'gauss_net', 'two', 'ring_net', 'half',
+                       'plateau', 'wrap_net', 'g3_pool_s', 'b7_update', 'b1', 'blob_f32_inplace']),
     C03=dict(quick=['blob_float', 'blob_int_vec', 'blob_two_obj', 'blob_array_pool',
                     'blob_struct_dictfn', 'blob_f32_inplace', 'blob_float_b1', 'blob_two_b2_vec'],
              thorough=['blob_float', 'blob_int_vec', 'blob_two_obj', 'blob_array_pool',
                        'blob_struct_dictfn', 'blob_f32_inplace', 'blob_float_b1', 'blob_array_b1',
                        'blob_two_b2_vec', 'blob_struct_b1', 'vec_inplace', 'obj_array_vec',
                        'dictfn_vec_net', 'pool_l3', 'gauss', 'wrap_net']),
-    C05=dict(quick=['gauss', 'gauss_net', 'wrap_net', 'blob_two_obj'],
-             thorough=['gauss', 'gauss_d', 'gauss_net', 'two', 'ring_net', 'half', 'wrap',
+    C05=dict(quick=['gauss_s', 'gauss_d', 'wrap_net', 'blob_two_obj', 'gauss_net', 'two'],
+             thorough=['gauss', 'gauss_s', 'gauss_d', 'gauss_net', 'two', 'ring_net', 'half', 'wrap',
                        'wrap_net', 'g3_pool_s', 'blob_float', 'blob_int_vec', 'blob_two_obj',
                        'blob_array_pool', 'blob_struct_dictfn', 'blob_f32_inplace',
                        'dictfn_vec_net', 'b7_update']),
-    C10=dict(quick=['gauss', 'b7_update', 'half'],
-             thorough=['gauss', 'gauss_d', 'b7_update', 'half', 'b1', 'two', 'wrap_net',
+    C10=dict(quick=['gauss_s', 'b7_update', 'half', 'gauss_d'],
+             thorough=['gauss', 'gauss_s', 'gauss_d', 'b7_update', 'half', 'b1', 'two', 'wrap_net',
                        'blob_int_vec', 'pool_l3']),
-    C11=dict(quick=['gauss', 'blob_array_pool', 'wrap_net'],
-             thorough=['gauss', 'gauss_net', 'blob_array_pool', 'pool_l3', 'wrap_net', 'two',
-                       'nofile', 'blob_two_obj']),
-    C12=dict(quick=['gauss', 'gauss_d', 'b7_update'],
-             thorough=['gauss', 'gauss_d', 'b7_update', 'b1', 'two', 'half', 'wrap_net',
-                       'blob_float', 'blob_two_obj']),
+    C11=dict(quick=['gauss_s', 'blob_array_pool', 'wrap_net', 'pool_l3'],
+             thorough=['gauss', 'gauss_s', 'gauss_net', 'blob_array_pool', 'pool_l3', 'wrap_net',
+                       'two', 'nofile', 'blob_two_obj']),
+    C12=dict(quick=['gauss_s', 'gauss_d', 'wrap_net', 'blob_two_obj'],
+             thorough=['gauss', 'gauss_s', 'gauss_d', 'b7_update', 'b1', 'two', 'half', 'wrap_net',
+                       'blob_float', 'blob_two_obj', 'gauss_net']),
 )
 
 LEVEL = 'model_checking'
